@@ -1035,6 +1035,7 @@ def check(ctx: Ctx) -> None:
     from . import _stoppers
     _stoppers.check_flag_setter(ctx, 'R9.8')
     _stoppers.check_runner_exit_order(ctx, 'R9.9')
+    _stoppers.check_iteration_snapshots(ctx, 'R9.10')
 
 
 SPEC = PropSpec(
